@@ -55,3 +55,18 @@ man = dict(
 )
 json.dump(man, open(os.path.join(ROOT, 'MANIFEST.json'), 'w'), indent=1)
 print('checks:', [c['property_id'] for c in checks], 'n/a:', len(na))
+
+# known_findings.txt is the single committed list: assembled from known/<Cxx>.txt (one file per property so that
+# builders never edit the same file); never written at check run time.
+import glob
+hdr = """# Known findings (never written at run time; assembled by tools/gen_manifest.py from known/<Cxx>.txt).  Format:
+#   known: property=<id> key=<sha1 of witness> <what fails>   -> pinned witness in known/<id>.ndjson is replayed on every run; printed as KNOWN-FINDING
+#   fixed: property=<id> <commit> <what failed>                -> suppresses nothing
+"""
+lines = []
+for f in sorted(glob.glob(os.path.join(ROOT, 'known', 'C*.txt'))):
+    for l in open(f):
+        if l.strip() and not l.startswith('#'):
+            lines.append(l.rstrip('\n'))
+open(os.path.join(ROOT, 'known_findings.txt'), 'w').write(hdr + '\n'.join(lines) + '\n')
+print('known findings:', sum(1 for l in lines if l.startswith('known:')), 'fixed:', sum(1 for l in lines if l.startswith('fixed:')))
